@@ -22,7 +22,8 @@
 (*         grow (asks by label; then additionally by name for every object *)
 (*         it was given) / relabel (one requirement whose match labels     *)
 (*         change once it was supplied) / count n (a counter kept in the context: changes *)
-(*         its requirement n times, then repeats it; n = 9 never does)     *)
+(*         its requirement n times, then repeats it; n = 9 never does) /   *)
+(*         flip (alternates between two requirements for ever)             *)
 (*   res   results: none / normal / warning / fatal / warnfatal, target rt *)
 (*   cond  conditions: none / own type / shared type, status cs, target ct *)
 (*   creds whether the step declares a credential secret                   *)
@@ -89,10 +90,14 @@ ProgRelabel == P("relabel", "add",    "b", "keep", "relabel", 0, "none",     "xr
 \* supplied - the new selector's labels are a strict SUBSET of the previous one's, and it matches more
 \* (added after the seeded change C04-m8 - "nothing new in the selector, so nothing changed" - was missed)
 ProgWiden  == P("widen",   "add",    "b", "keep", "widen",   0, "none",     "xr",    "none",   "True",    "xr",    FALSE)
+\* flip: the requirement alternates between two values for ever (x1, x0, x1, ...): every value was seen before, but never in
+\* the round before, so the step never stabilises (added after the seeded change C03-m11 - "equal to ANY earlier round's
+\* requirements" - was missed by the two programs that never repeat a value)
+ProgFlip   == P("flip",    "add",    "b", "keep", "flip",    9, "none",     "xr",    "none",   "True",    "xr",    FALSE)
 ProgFatal  == P("fatal",  "add",     "b", "set",  "name",   0, "warnfatal", "claim", "own",    "False",   "xr",    FALSE)
 
 AllProgs == {ProgPass, ProgAddA, ProgAddB, ProgDropA, ProgRenAC, ProgMutate, ProgClear, ProgChase, ProgGrow,
-             ProgCount2, ProgCount4, ProgNever, ProgFatal, ProgRelabel, ProgWiden}
+             ProgCount2, ProgCount4, ProgNever, ProgFatal, ProgRelabel, ProgWiden, ProgFlip}
 
 \* the program a call ran: looked up by the name the function found in its input
 ProgFor(in, name) ==
@@ -149,7 +154,7 @@ CtxOp(p, m, rq) ==
                 [] p.ctx = "del"  -> {x \in c : x.k # "k"}
                 [] p.ctx = "drop" -> {}
                 [] OTHER          -> c
-  IN IF p.req = "count" /\ Count(rq) < p.n THEN CtxSet(base, "n", ToString(Count(rq) + 1)) ELSE base
+  IN IF p.req \in {"count", "flip"} /\ Count(rq) < p.n THEN CtxSet(base, "n", ToString(Count(rq) + 1)) ELSE base
 
 ReqOp(p, rq) ==
   CASE p.req = "name"   -> {Sel("k1", "name", "e1")}
@@ -162,6 +167,7 @@ ReqOp(p, rq) ==
     [] p.req = "relabel" -> {Sel("k1", "labels", IF \E x \in rq.extra : x.k = "k1" THEN "g" ELSE "h")}
     [] p.req = "widen"  -> {Sel("k1", "labels", IF \E x \in rq.extra : x.k = "k1" THEN "g" ELSE "g+1")}
     [] p.req = "count"  -> {Sel("k1", "name", "x" \o ToString(IF Count(rq) < p.n THEN Count(rq) ELSE p.n))}
+    [] p.req = "flip"   -> {Sel("k1", "name", "x" \o ToString((Count(rq) + 1) % 2))}
     [] OTHER            -> {}            \* none: no requirements at all
 
 Tok(m, sev) == "fnres:" \o m \o ":" \o sev
